@@ -241,6 +241,15 @@ def run(ctx):
     enc_ok = any(isinstance(n, ast.Return) and isinstance(n.value, ast.Attribute) and n.value.attr == "name" for n in walk_no_nested(enc.node))
     st_fn = idx.func(f"{LOCAL}:Client.status")
     dec_ok = any(isinstance(n, ast.Subscript) and dotted(n.value) == "LocalStatus" for n in ast.walk(st_fn.node))
+    enc_fn = idx.maybe_func(f"{LOCAL}:encode")
+    uses_enc = False
+    if enc_fn is not None:
+        for c_ in ast.walk(enc_fn.node):
+            if isinstance(c_, ast.Call) and (idx.canon(c_.func, enc_fn.module) or "") in ("json.dumps", "json.dump"):
+                uses_enc = any(k.arg in ("cls", "default") for k in c_.keywords)
+    r1.check(uses_enc or enc_fn is None, "src/gwf/backends/local.py::encode::encoder", "encode() serialises with the encoder that knows LocalStatus (cls= / default=)",
+             "encode() calls json.dumps without cls=/default=: a reply that carries task states (LocalStatus members) cannot be serialised, every state query of the local "
+             "backend fails", enc_fn.where if enc_fn is not None else enc.where)
     r1.check(enc_ok and dec_ok, "src/gwf/backends/local.py::wire-state-encoding", "states travel by member name (encoder .name / decoder LocalStatus[name])",
              "the pool encodes task states differently from how the client decodes them", enc.where)
 
@@ -300,6 +309,10 @@ def run(ctx):
                  f"for a scheduler answer naming job 4242 the backend hands back {got_id!r}: the job id returned to gwf is the raw output of the submit command (with its "
                  "trailing newline): the queue listing never matches it, so the job's state is never found and dependents are held on a malformed id", m.where)
     from .evalhelpers import eval_local_job_states, S
+    from .evalhelpers import local_client_witness
+    report_witness(r2, "src/gwf/backends/local.py::Client.status", "src/gwf/backends/local.py:1", cached_witness(ctx, "local-client", local_client_witness),
+                   "the local client's state query: one get_task_states request, the reply decoded to LocalStatus members id by id",
+                   select=lambda d: "task_states" in d or "state query" in d)
     got, lo = eval_local_job_states(ctx)
     want = {1: S("RUNNING"), 7: S("FAILED"), 9: S("COMPLETED")}
     r2.check(got == want, f"{lo.module.relpath}::{lo.qual}", "wire keys '1','2','7','9' with tracked ids [1,7,9] -> {1: RUNNING, 7: FAILED (killed), 9: COMPLETED}",
